@@ -714,7 +714,24 @@ func ledgerFailures(post, pre *State, kind string, ok bool) map[string]string {
 			fail("negative_dust", fmt.Sprint("S", a.Denom), "asset %d share total S=%s", a.Denom, a.S)
 		}
 		if a.T.Sign() < 0 {
-			fail("negative", fmt.Sprint("T", a.Denom), "asset %d staked total T=%s", a.Denom, a.T)
+			cls := "negative"
+			// D23: the asset's share total had drifted BELOW the validators' sum (D13), so the validators' token values add up
+			// to more than the staked total and the last delegator out withdraws the excess: bounded by the token value of
+			// that drift in the pre-state (plus the rounding of the reported balance)
+			if pa := pre.Asset(a.Denom); pa != nil && pa.S.Sign() > 0 && pa.T.Sign() > 0 {
+				pw := new(big.Int)
+				for _, vi := range pre.Vals {
+					pw.Add(pw, dcAmt(vi.VS, a.Denom))
+				}
+				if drift := new(big.Int).Sub(pw, pa.S); drift.Sign() > 0 {
+					bound := new(big.Int).Quo(new(big.Int).Mul(drift, pa.T), pa.S)
+					bound.Add(bound, big.NewInt(2))
+					if new(big.Int).Neg(a.T).Cmp(bound) <= 0 {
+						cls = "negative_total_from_share_drift"
+					}
+				}
+			}
+			fail(cls, fmt.Sprint("T", a.Denom), "asset %d staked total T=%s", a.Denom, a.T)
 		}
 		if a.T.Sign() == 0 && (a.S.Sign() != 0 || w.Sign() != 0) {
 			fail("reset_on_empty", fmt.Sprint(a.Denom), "asset %d drained but shares remain S=%s sum=%s", a.Denom, a.S, w)
